@@ -66,7 +66,10 @@ DecEth(b, s) ==
                  !.pos = s.pos + 14, !.et = U16(b, s.pos + 12), !.pay = p, !.next = "ether", !.first = FALSE]
 
 DecSll(b, s) ==
-  IF A(s) < 16 THEN Faulty(s, s.pos, {LenF("LinuxSllHeader", 16, A(s), W(s))}, {"LinuxSllHeader"}) ELSE
+  \* (a header that is cut short AND shows a content fault in the bytes that are there may be reported either way: both faults are real)
+  IF A(s) < 16 THEN Faulty(s, s.pos, {LenF("LinuxSllHeader", 16, A(s), W(s))}
+                                     \cup (IF A(s) >= 2 /\ U16(b, s.pos) > 7 THEN {ConF("sll.ptype", U16(b, s.pos))} ELSE {})
+                                     \cup (IF A(s) >= 4 /\ U16(b, s.pos + 2) \notin SllHwOk THEN {ConF("sll.hw", U16(b, s.pos + 2))} ELSE {}), {"LinuxSllHeader"}) ELSE
   LET pt == U16(b, s.pos)  hw == U16(b, s.pos + 2)  proto == U16(b, s.pos + 14)
       faults == (IF pt > 7 THEN {ConF("sll.ptype", pt)} ELSE {}) \cup (IF hw \notin SllHwOk THEN {ConF("sll.hw", hw)} ELSE {})
       isEt == hw = 1 /\ proto \notin SllNonStd
@@ -87,7 +90,9 @@ DecVlan(b, s) ==
 \* MACsec: short length sl > 0 announces the number of bytes after the SecTAG (incl. the
 \* 2 ether type bytes the crate counts as header when the payload is unmodified)
 DecMacsec(b, s) ==
-  IF A(s) < 6 THEN Faulty(s, s.pos, {LenF("MacsecHeader", 6, A(s), W(s))}, {"MacsecHeader"}) ELSE
+  IF A(s) < 6 THEN Faulty(s, s.pos, {LenF("MacsecHeader", 6, A(s), W(s))}
+                                    \cup (IF A(s) >= 1 /\ B(b, s.pos) >= 128 THEN {ConF("macsec.version", -1)} ELSE {})
+                                    \cup (IF A(s) >= 2 /\ MsUnmod(B(b, s.pos)) /\ Bits(B(b, s.pos + 1), 0, 6) = 1 THEN {ConF("macsec.shortlen", -1)} ELSE {}), {"MacsecHeader"}) ELSE
   LET b0 == B(b, s.pos)  sl == Bits(B(b, s.pos + 1), 0, 6)
       unmod == MsUnmod(b0)  hl == MsHdrLen(b0)
       plen == IF unmod THEN sl - 2 ELSE sl
@@ -121,7 +126,7 @@ DecArp(b, s) ==
 
 \* authentication header at p with a bytes available: <<"ok", len, next>> or <<"err", faults>>
 Auth(b, p, a, srcs) ==
-  IF a < 12 THEN <<"err", {LenF("IpAuthHeader", 12, a, srcs)}>>
+  IF a < 12 THEN <<"err", {LenF("IpAuthHeader", 12, a, srcs)} \cup (IF a >= 2 /\ B(b, p + 1) = 0 THEN {ConF("auth.zero", -1)} ELSE {})>>
   ELSE LET l == (B(b, p + 1) + 2) * 4
            faults == (IF B(b, p + 1) = 0 THEN {ConF("auth.zero", -1)} ELSE {})
                      \cup (IF a < l THEN {LenF("IpAuthHeader", l, a, srcs)} ELSE {})
@@ -276,7 +281,8 @@ DecUdp(b, s) ==
   IN [s EXCEPT !.layers = Append(@, Layer("udp", s.pos, 8, FldUdp(b, s.pos), p)), !.pos = s.pos + 8, !.pay = p, !.next = "done"]
 
 DecTcp(b, s) ==
-  IF A(s) < 20 THEN Faulty(s, s.pos, {LenF("TcpHeader", 20, A(s), W(s))}, {"TcpHeader"}) ELSE
+  IF A(s) < 20 THEN Faulty(s, s.pos, {LenF("TcpHeader", 20, A(s), W(s))}
+                                     \cup (IF A(s) >= 13 /\ Hi4(B(b, s.pos + 12)) < 5 THEN {ConF("tcp.doff", Hi4(B(b, s.pos + 12)))} ELSE {}), {"TcpHeader"}) ELSE
   LET doff == Hi4(B(b, s.pos + 12))  hl == 4 * doff
       faults == (IF doff < 5 THEN {ConF("tcp.doff", doff)} ELSE {})
                 \cup (IF doff >= 5 /\ A(s) < hl THEN {LenF("TcpHeader", hl, A(s), W(s))} ELSE {})
